@@ -49,6 +49,10 @@ def run(c):
     c.alive_at("store-iter-counter-moves-into-iterator", S + "iter", S + "enter_tx", L + "DatabaseIterator::new",
                desc="Store::iter: the open-transaction registration (TxCounter) is handed to the iterator that owns the read transaction")
     c.r1("batch-counts-tx", B + "new", S + "enter_tx", sink="re:heed::.*Env::write_txn$", via=2)
+    # ... and the registration lives as long as the write transaction: the TxCounter is stored in the Batch that owns the RwTxn (a batch that
+    # is open while another thread asks for a resize must be counted, or the map is resized under an open write transaction)
+    c.r2_ret("batch-new-counter-moves-into-batch", B + "new", must=["call:Store::enter_tx", "re:^call:.*Env::write_txn$"],
+             desc="Batch::new: the open-transaction registration (TxCounter) is stored in the returned Batch together with the write transaction")
     c.r1("batch-resize-check-first", S + "batch", S + "maybe_resize", sink=B + "new", via=2)
     # --- resize gate
     M = S + "maybe_resize"
